@@ -150,5 +150,8 @@ TRUST_PATTERNS = [
 ]
 
 VERUS_RLIMIT = 60
+# wall-clock guard per Verus run (a unit takes 5-90 s; a solver that diverges without consuming rlimit
+# must end in `no verdict`, not in a hung check)
+VERUS_TIMEOUT_S = 600
 CANARY_RLIMIT = 8
 VERUS_THREADS = 8
